@@ -10,7 +10,7 @@ PROPERTY = "C11"
 LEVEL = "exploration"
 BUDGET = {"quick": 60, "thorough": 600}
 CAUSES = ["conn_close", "http10", "bad_request", "too_few_bytes", "too_few_bytes_zero", "exc_after_head", "no_length",
-          "client_fin", "client_rst", "bad_chunk", "oversize_body", "send_error", "recv_error"]
+          "client_fin", "client_rst", "bad_chunk", "oversize_body", "send_error", "recv_error", "te_cl_both", "te_cl_empty"]
 FOLLOW = ["complete", "partial", "garbage", "complete_with_body"]
 EVIDENCE = {
     "rule": "one or two connections; 0-3 ordinary keep-alive requests, then a closing message (cause drawn from: "
@@ -123,6 +123,11 @@ def run_one(tapes, tier, scenario=None):
         elif cause == "bad_chunk":
             rq = (b"POST %s HTTP/1.1\r\nHost: s\r\nTransfer-Encoding: chunked\r\n\r\n" % path.encode()) + b"3\r\nabcXX\r\n0\r\n\r\n"
             closing_app = False
+        elif cause in ("te_cl_both", "te_cl_empty"):
+            # Transfer-Encoding next to a Content-Length (RFC 9112 6.1: answer, then close - the framing of what
+            # follows cannot be trusted); the application is called, the decision to close is the server's
+            rq = (b"POST %s HTTP/1.1\r\nHost: s\r\nTransfer-Encoding: chunked\r\nContent-Length:%s\r\n\r\n" % (
+                path.encode(), b" 3" if cause == "te_cl_both" else b"")) + b"3\r\nabc\r\n0\r\n\r\n"
         elif cause == "oversize_body":
             rq = b"POST %s HTTP/1.1\r\nHost: s\r\nContent-Length: 999999\r\n\r\n" % path.encode()
             closing_app = False
@@ -222,11 +227,11 @@ def run_one(tapes, tier, scenario=None):
                 kclose, why = i, "undelimitable response"
             if kclose is not None:
                 break
-        if p["cause"] in ("too_few_bytes", "too_few_bytes_zero", "exc_after_head") and cpos_of(p) in call_pos:
+        if p["cause"] in ("too_few_bytes", "too_few_bytes_zero", "exc_after_head", "te_cl_both", "te_cl_empty") and cpos_of(p) in call_pos:
             # the application itself made response cpos undelimitable: whatever the wire looks like to a parser that
             # is misled by the following bytes, the decision point is known from the script
             if kclose is None or kclose > cpos_of(p):
-                kclose, why = cpos_of(p), "response could not be delimited as announced (%s)" % p["cause"]
+                kclose, why = cpos_of(p), ("response could not be delimited as announced (%s)" if not p["cause"].startswith("te_cl") else "request carried Transfer-Encoding and Content-Length (%s): close after responding") % p["cause"]
         if kclose is not None:
             later = [pos for pos in call_pos if pos > kclose]
             if later:
